@@ -37,6 +37,16 @@ def seed() -> int:
         return 0
 
 
+def eff_seed() -> int:
+    """The seed that drives case selection and data values.  The quick tier is a fixed, reproducible
+    core (effective seed 0 whatever VERIF_SEED is: it is the check run on every change and must give the
+    same verdict every time); the thorough tier explores with VERIF_SEED.  Set by checks/args.parse()."""
+    try:
+        return int(os.environ.get("VERIF_EFF_SEED", "0"))
+    except ValueError:
+        return 0
+
+
 @contextlib.contextmanager
 def scratch(prefix="exoverif_"):
     base = os.environ.get("VERIF_SCRATCH", "/var/tmp")
@@ -229,6 +239,7 @@ class Report:
             "property_id": self.prop,
             "tier": self.tier,
             "seed": seed(),
+            "effective_seed": eff_seed(),
             "level": self.level,
             "coverage": cov,
             "assumptions": self.assumptions,
